@@ -352,8 +352,8 @@ def replay(case):
     if case.get('inplace'):
         judge_inplace(acc, fxm, fym, case['part'])
         return [v for v in acc.violations if v['case'].get('op') == case['op'] and v['case'].get('method') == case['method']]
-    if case.get('by') == 'value':
-        judge(acc, fxm, fym, case['xs'], case['ys'], case['op'], case['method'], case['rounding'], case['shape'], case['part'], 'value')
+    if case.get('by', 'raw') != 'raw':
+        judge(acc, fxm, fym, case['xs'], case['ys'], case['op'], case['method'], case['rounding'], case['shape'], case['part'], case['by'])
     elif case.get('identity') or case['shape'] == 'outer':
         judge_all(acc, fxm, fym, case['xs'], case['ys'], case['part'].rstrip('s'))
     else:
